@@ -1174,3 +1174,11 @@ M('C04-on-neutral-refuse-off', 'C04', F_PNG,
   "    if used_size > CODE_AREA_SIZE:\n",
   "    if used_size > CODE_AREA_SIZE + 256:\n",
   expect='R-C04-refuse', on='neutral-C04', accept_error=True)
+M('C18-on-neutral-clip-off-by-one', 'C18', F_GAME,
+  "    clipped = slice(max(first, 0), min(last, size))\n",
+  "    clipped = slice(max(first, 0), min(last, size - 1))\n",
+  expect='R-C18-slices', on='neutral2-C18')
+M('C18-on-neutral-reject-late', 'C18', F_GAME,
+  "        if start_addr + len(data) > CART_DATA_SIZE:\n",
+  "        if start_addr + len(data) > CART_DATA_SIZE + 1:\n",
+  expect='R-C18-reject', on='neutral2-C18')
